@@ -53,7 +53,7 @@ pub fn case_strategy(_tier: Tier) -> impl Strategy<Value = GlmCase> {
                     proptest::collection::vec(row, 12..=80),
                     proptest::collection::vec(gauss(), P_MAX),
                     0u8..7,
-                    0u8..3,
+                    0u8..8,
                     0u8..4,
                 ),
                 (
@@ -100,8 +100,10 @@ pub struct Derived {
     pub link: Lk,
     pub intercept: bool,
     pub zero_targets: usize,
-    /// Some(true) = a target outside the support was planted
+    /// Some(..) = a target outside the support was planted
     pub planted: Option<&'static str>,
+    /// how many times the features were halved to keep the solver's first trial points inside the domain
+    pub shrunk_steps: usize,
 }
 
 pub fn derive(case: &GlmCase) -> Option<Derived> {
@@ -117,7 +119,13 @@ pub fn derive(case: &GlmCase) -> Option<Derived> {
         return None;
     }
     let power = POWERS[(case.power_ix as usize).min(POWERS.len() - 1)];
-    let link = [Lk::Identity, Lk::Log, Lk::Logit][(case.link_ix as usize).min(2)];
+    // link_ix 0..8: identity is the natural link of power 0; with power >= 1 it does not keep the mean positive
+    // and is generated less often
+    let link = if power == 0.0 {
+        [Lk::Identity, Lk::Identity, Lk::Identity, Lk::Log, Lk::Log, Lk::Logit, Lk::Logit, Lk::Logit][(case.link_ix as usize).min(7)]
+    } else {
+        [Lk::Identity, Lk::Log, Lk::Log, Lk::Log, Lk::Log, Lk::Logit, Lk::Logit, Lk::Logit][(case.link_ix as usize).min(7)]
+    };
     let scale = SCALES[(case.scale_ix as usize).min(1)];
     let sigma = NOISE[(case.noise_ix as usize).min(2)];
     // identity link with power >= 1 needs positive means: the model must have an intercept to start inside the domain
@@ -159,8 +167,61 @@ pub fn derive(case: &GlmCase) -> Option<Derived> {
             planted = Some("zero");
         }
     }
-    let x: Vec<Vec<f64>> = case.rows.iter().map(|r| r.x[..p].iter().map(|v| v * scale).collect()).collect();
-    Some(Derived { p, x, y, power, link, intercept, zero_targets, planted })
+    // Feature magnitude. linfa starts L-BFGS at (link(mean y), 0) and argmin's first trial point is
+    // start - 1 * gradient (extrapolating up to 5 * gradient). The features are shrunk by a power of two until
+    // the harness' own objective is finite at those trial points and the linear predictor moves by at most
+    // FIRST_STEP_CAP there: otherwise the deviance is NaN at the first trial point and argmin's line search never returns.
+    let mut shrink = 1.0f64;
+    let mut shrunk_steps = 0usize;
+    let x = loop {
+        let x: Vec<Vec<f64>> = case.rows.iter().map(|r| r.x[..p].iter().map(|v| v * scale * shrink).collect()).collect();
+        if planted.is_some() || first_steps_ok(&x, &y, p, intercept, power, link) {
+            break x;
+        }
+        shrink *= 0.5;
+        shrunk_steps += 1;
+        if shrunk_steps > 16 {
+            return None;
+        }
+    };
+    Some(Derived { p, x, y, power, link, intercept, zero_targets, planted, shrunk_steps })
+}
+
+pub const FIRST_STEP_CAP: f64 = 6.0;
+
+/// start point of linfa's solver: coefficients 0, intercept = link(mean(y))
+pub fn start_point(y: &[f64], p: usize, intercept: bool, link: Lk) -> Vec<f64> {
+    let mut t = vec![0.0; p];
+    if intercept {
+        let m = y.iter().sum::<f64>() / y.len().max(1) as f64;
+        t.push(match link {
+            Lk::Identity => m,
+            Lk::Log => m.ln(),
+            Lk::Logit => (m / (1.0 - m)).ln(),
+        });
+    }
+    t
+}
+
+fn first_steps_ok(x: &[Vec<f64>], y: &[f64], p: usize, intercept: bool, power: f64, link: Lk) -> bool {
+    use crate::model::Objective;
+    let obj = Tweedie { x, y, p, intercept, alpha: 0.0, power, link };
+    let t0 = start_point(y, p, intercept, link);
+    if t0.iter().any(|v| !v.is_finite()) || !obj.in_domain(&t0) || !obj.value(&t0).is_finite() {
+        return false;
+    }
+    let g = obj.grad(&t0);
+    if g.iter().any(|v| !v.is_finite()) {
+        return false;
+    }
+    for step in [0.5, 1.0, 2.0, 5.0] {
+        let t: Vec<f64> = t0.iter().zip(&g).map(|(a, b)| a - step * b).collect();
+        if !obj.in_domain(&t) || !obj.value(&t).is_finite() || obj.grad(&t).iter().any(|v| !v.is_finite()) {
+            return false;
+        }
+    }
+    let t1: Vec<f64> = t0.iter().zip(&g).map(|(a, b)| a - b).collect();
+    (0..x.len()).all(|i| (obj.eta(&t1, i) - obj.eta(&t0, i)).abs() <= FIRST_STEP_CAP)
 }
 
 fn to_array2(x: &[Vec<f64>], p: usize) -> Array2<f64> {
@@ -200,14 +261,17 @@ pub fn check(case: &GlmCase, obs: &mut Obs) {
     };
     let xa = to_array2(&d.x, d.p);
     let ds = DatasetBase::new(xa.clone(), Array1::from(d.y.clone()));
-    let params = TweedieRegressor::<f64>::params()
-        .alpha(alpha)
-        .fit_intercept(d.intercept)
-        .power(d.power)
-        .link(link)
-        .max_iter(MAX_ITER)
-        .tol(tol);
-    let Some(res) = obs.call("glm:fit", || params.fit(&ds)) else { return };
+    let build = |max_iter: usize| {
+        TweedieRegressor::<f64>::params()
+            .alpha(alpha)
+            .fit_intercept(d.intercept)
+            .power(d.power)
+            .link(link)
+            .max_iter(max_iter)
+            .tol(tol)
+    };
+    obs.class_if(d.shrunk_steps > 0, "features_shrunk_for_first_step");
+    let Some(res) = obs.call("glm:fit", || build(MAX_ITER).fit(&ds)) else { return };
 
     if let Some(what) = d.planted {
         obs.class("target_outside_support");
@@ -259,9 +323,26 @@ pub fn check(case: &GlmCase, obs: &mut Obs) {
     } else {
         model::Judged { verdict: Verdict::Undefined, gnorm: f64::NAN, bound: 0.0, f: f64::NAN, gap: None }
     };
+    let mut j = j;
+    if j.verdict == Verdict::NotStationary {
+        // stopped on its own or cut off by max_iter? (same parameters with twice the iteration limit = stopped on its own)
+        let same = match vengine::guard(|| build(2 * MAX_ITER).fit(&ds)) {
+            Ok(Ok(m2)) => {
+                m2.intercept.to_bits() == b.to_bits() && m2.coef.len() == w.len() && m2.coef.iter().zip(&w).all(|(a, c)| a.to_bits() == c.to_bits())
+            }
+            _ => false,
+        };
+        if !same {
+            j.verdict = Verdict::IterationCap;
+        }
+    }
     let mut judged = true;
     match j.verdict {
-        Verdict::Stationary => {}
+        Verdict::IterationCap => {
+            obs.class("glm_stopped_by_max_iterations");
+            judged = false;
+        }
+        Verdict::Stationary => obs.class(model::grad_class(j.gnorm, tol)),
         Verdict::Stalled => {
             obs.class("glm_stalled_at_cost_resolution");
             judged = false;
@@ -280,13 +361,8 @@ pub fn check(case: &GlmCase, obs: &mut Obs) {
         }
         Verdict::NotStationary => {
             let sig = if d.power == 1.0 { "glm:not-stationary:poisson" } else { "glm:not-stationary" };
-            let mean_y = d.y.iter().sum::<f64>() / n as f64;
-            let start_b = match d.link {
-                Lk::Identity => mean_y,
-                Lk::Log => mean_y.ln(),
-                Lk::Logit => (mean_y / (1.0 - mean_y)).ln(),
-            };
-            let at_start = w.iter().all(|v| *v == 0.0) && (!d.intercept || b == start_b);
+            let t0 = start_point(&d.y, d.p, d.intercept, d.link);
+            let at_start = theta.len() == t0.len() && theta.iter().zip(&t0).all(|(a, c)| (a - c).abs() <= 1e-12 * c.abs().max(1.0));
             obs.fail(
                 sig,
                 format!(
